@@ -1,0 +1,45 @@
+//go:build verif
+
+// Contracts for the deductive verifier in /verif (govc). Comment-only: this file adds no code.
+package exporter
+
+// ---- C12: every field, required-ness, array items and reference targets are carried into the schema
+
+// One schema per simplified type: an object's properties are its fields (each exported from its own definition),
+// a field is required exactly when it is not optional, an array always gets its items, a reference its target.
+//@ func (*OpenAPI3Exporter).exportType
+//@   maypanic
+//@   ensures [nil-type-nil-schema] t == nil ==> result == nil
+//@   ghostset @store:F.openapi3.Schema.Items itemsSet
+//@   ensures [array-always-has-items] t != nil && old(t.Type) == "list" ==> ghost("itemsSet")
+//@   assert @store:F.openapi3.Schema.Items [items-from-the-element-type] old(t.Type) == "list"
+//@   assert @call:exporter.(*OpenAPI3Exporter).exportType [exports-a-component-of-this-type] arg1 == v || (t.Type == "list" && arg1 == t.Items[0])
+//@   assert @mapupdate:openapi3.Schemas [property-named-after-the-field] mapkey == k
+//@   ghostclear @iter:1 required
+//@   ghostset @call:builtin:append required
+//@   ghostclear @iter:1 property
+//@   ghostset @mapupdate:openapi3.Schemas property
+//@   loop 1 step [required-iff-not-optional] (!v.Optional) == ghost("required")
+//@   loop 1 step [every-field-is-a-property] ghost("property")
+//@   ghostclear @iter:0 mapproperty
+//@   ghostset @mapupdate:openapi3.Schemas mapproperty
+//@   loop 0 step [every-entry-is-a-property] ghost("mapproperty")
+
+// Operations: a parameter is required exactly when its type is not optional (also for the request body).
+//@ func (*OpenAPI3Exporter).GenerateOpenAPI3
+//@   maypanic
+//@   assert @store:F.openapi3.Parameter.Required [parameter-required-iff-not-optional] stored == !paramItem.Type.Optional
+//@   assert @call:github.com/getkin/kin-openapi/openapi3.(*RequestBody).WithRequired [body-required-iff-not-optional] arg1 == !paramItem.Type.Optional
+
+// Swagger 2 definitions: every member of a tuple / relation becomes a property of the type's schema under its own
+// name, and a set / sequence becomes an array that has an items schema.
+//@ func (*TypeExporter).populateTypes
+//@   maypanic
+//@   ghostclear @iter:1 property
+//@   ghostset @mapupdate:spec.SchemaProperties property
+//@   loop 1 step [every-member-is-a-property] ghost("property")
+//@   assert @mapupdate:spec.SchemaProperties [property-named-after-the-member] mapkey == attK
+//@ func (*TypeExporter).parseComposite
+//@   maypanic
+//@   requires schema != nil
+//@   ensures [array-has-an-items-schema] schema.Items != nil && schema.Items.Schema != nil
